@@ -6,8 +6,13 @@ impl<K, V> BTreeMap<K, V> {
     pub open spec fn view(&self) -> Seq<(K, V)> { self.entries@ }
     #[verifier::external_body] pub fn len(&self) -> (r: usize) ensures r == self@.len() { unimplemented!() }
     #[verifier::external_body] pub fn is_empty(&self) -> (r: bool) ensures r == (self@.len() == 0) { unimplemented!() }
+    #[verifier::external_body] pub fn new() -> (r: Self) ensures r@ == Seq::<(K, V)>::empty() { unimplemented!() }
+    // insertion position / replacement is decided by K's Ord: not modelled here (uninterpreted)
+    #[verifier::external_body] pub fn insert(&mut self, k: K, v: V) -> (r: Option<V>)
+        ensures final(self)@ == bt_insert(old(self)@, k, v), final(self)@.len() <= old(self)@.len() + 1 { unimplemented!() }
     #[verifier::external_body] pub fn iter<'a>(&'a self) -> (r: MapIter<'a, K, V>) ensures r.pos == 0 && r.m == self { unimplemented!() }
 }
+pub uninterp spec fn bt_insert<K, V>(s: Seq<(K, V)>, k: K, v: V) -> Seq<(K, V)>;
 pub struct MapIter<'a, K, V> { pub pos: usize, pub m: &'a BTreeMap<K, V> }
 impl<'a, K, V> Iterator for MapIter<'a, K, V> {
     type Item = (&'a K, &'a V);
